@@ -7,12 +7,13 @@ THEMES = {
     "formatting": ["<b>", "<i>", "<a>", "<nobr>", "<p>", "<div>", "<applet>", "</b>", "</i>", "</a>", "</p>", "</div>", "x", " ",
                    "</applet>", "<b id=1>", "</nobr>", "<table>", "<td>", "</table>"],
     "table": ["<table>", "<caption>", "<colgroup>", "<col>", "<tbody>", "<tr>", "<td>", "<th>", "</table>", "</td>", "</tr>", "x", " ",
-              "<input type=hidden>", "<input>", "<form>", "<select>", "<style>", "</caption>", "</tbody>", "<b>", "<p>", "<thead>", "</b>"],
+              "<input type=hidden>", "<input>", "<form>", "<select>", "<style>", "</caption>", "</tbody>", "<b>", "<p>", "<thead>", "</b>",
+              "</col>", "<button>"],
     "head": ["<html>", "<head>", "<body>", "<title>", "<meta>", "<base>", "<script>", "<noscript>", "<frameset>", "<frame>",
              "<noframes>", "</head>", "</body>", "</html>", "</title>", "</script>", "</noscript>", "</frameset>", "x", " ",
              "<!--c-->", "<link>", "<style>", "</style>", "<html lang=en>", "<body class=a>", "</br>", "<!DOCTYPE html>"],
     "blocks": ["<li>", "<dd>", "<dt>", "<ul>", "<p>", "<div>", "<h1>", "<h2>", "<address>", "<button>", "<form>", "<pre>", "<listing>",
-               "<textarea>", "<plaintext>", "<xmp>", "<hr>", "<br>", "<image>", "<input type=hidden>", "</li>", "</p>", "</div>",
+               "<textarea>", "<plaintext>", "<xmp>", "<hr>", "<br>", "<image>", "<param>", "<iframe>", "<input type=hidden>", "</li>", "</p>", "</div>",
                "</h1>", "</form>", "</button>", "</pre>", "</ul>", "\n", "x", "</textarea>", "</xmp>", "<dialog>", "<main>"],
     "select": ["<select>", "<option>", "<optgroup>", "</select>", "</option>", "</optgroup>", "<input>", "<table>", "<tr>", "<td>",
                "</table>", "x", " ", "<script>", "</script>", "<b>", "<textarea>", "<keygen>", "<p>"],
@@ -33,7 +34,7 @@ THEMES["cover"] = ["<b>", "<i>", "<a>", "<nobr>", "<p>", "<div>", "<applet>", "<
                    "<annotation-xml encoding=text/html>", "<foreignObject>", "<desc>", "<ruby>", "<rt>", "</b>", "</p>", "</table>",
                    "</select>", "</body>", "</html>", "</head>", "x", " ", "<!DOCTYPE html>", "<h1>", "<xmp>", "<plaintext>", "</applet>"]
 THEMES["cover_afe"] = ["<b>", "<i>", "<a>", "<nobr>", "<p>", "<div>", "<applet>", "<object>", "<table>", "<td>", "</b>", "</p>", "</applet>",
-                       "</object>", "x", "</a>", "</div>", "<b id=1>"]
+                       "</object>", "x", "</a>", "</div>", "<b id=1>", "<b x=1 y=2>"]
 THEMES["frameset"] = ["<frameset>", "</frameset>", "</html>", "<noframes>", "</noframes>", "x", " ", "<frame>", "<html>", "<body>", "</body>",
                       "<!--c-->", "<head>", "&#32;", "&", "<"]
 PUMP_NAMES = """a b i nobr font p div span li dd dt ul ol dl h1 form button applet object marquee table caption colgroup tbody tr td th
